@@ -13,7 +13,7 @@ func init() {
 	register(&propertyDef{
 		id:    "C05",
 		title: "nothing is left running or deployed",
-		rules: []ruleFunc{c05R1, c05R2, c05R3, c05R4, c05R5, c05R6, c05R7},
+		rules: []ruleFunc{c05R1, c05R2, c05R3, c05R4, c05R5, c05R6, c05R7, c05R8},
 		decided: "deploy/close pairing of the schema probe and of the step run on every path (R1, R2: path exploration of LoadSchema and of the step goroutine with a resource token); " +
 			"goroutine accounting: WaitGroup.Add dominates every `go`, the body defers Done on the same group, the designated waiter waits (R3); Close/ForceClose cancel first and wait on every return (R4); " +
 			"Execute registers terminate-all (R5 = C01.R4); every context.WithCancel/WithTimeout has its cancel deferred or stored where a closer calls it (R6); sub-runs get the step's context (R7).",
@@ -786,4 +786,54 @@ func c05R1(c *Ctx) {
 // C05.R2 deploy/close pairing of the step run (path exploration; see ppath.go).
 func c05R2(c *Ctx) {
 	c05R2Explore(c)
+}
+
+// C05.R8 whoever runs the ATP execution winds the client down.
+func c05R8(c *Ctx) {
+	const rule = "C05.R8"
+	c.explain("C05.R8 in every function of the plugin provider that runs an ATP execution (Client.Execute): on every path from the call to the function's return the channel handed to Execute for signals to the step is closed and Close is called on the same client — Execute starts the client's write loop, which ends only when that channel or the client is closed; nothing else waits for it")
+	n := 0
+	for _, fn := range c.RepoFns {
+		if c.excluded(fn) || pkgPathOf(fn) != pkgPlugin {
+			continue
+		}
+		eachInstr(fn, func(r instrRef) {
+			call, ok := r.I.(*ssa.Call)
+			if !ok {
+				return
+			}
+			cc := call.Common()
+			if !cc.IsInvoke() || cc.Method.Name() != "Execute" || !strings.HasSuffix(cc.Value.Type().String(), "atp.Client") {
+				return
+			}
+			n++
+			clientF := loadedField(cc.Value)
+			key := "atp-execute@" + c.fnName(fn)
+			closesClient := func(in ssa.Instruction) bool {
+				c2 := callCommon(in)
+				if c2 == nil || !c2.IsInvoke() || c2.Method.Name() != "Close" || !strings.HasSuffix(c2.Value.Type().String(), "atp.Client") {
+					return false
+				}
+				if _, isDefer := in.(*ssa.Defer); isDefer {
+					return false
+				}
+				return clientF == nil || loadedField(c2.Value) == clientF
+			}
+			p1 := c.findPath(fn, call, closesClient, isReturn)
+			c.verdict(p1 == nil, rule, key+"#client-closed", c.instrPos(call), "Close is called on the client on every path from Execute to the return", "a path from the ATP execution to the return does not close the ATP client (its write loop goroutine stays behind): "+strings.Join(p1, " -> "))
+			if len(cc.Args) >= 2 {
+				sigF := loadedField(cc.Args[1])
+				closesChan := func(in ssa.Instruction) bool {
+					cl, ok := in.(*ssa.Call)
+					if !ok || !isBuiltinCall(cl, "close") || len(cl.Call.Args) != 1 {
+						return false
+					}
+					return sigF != nil && derivesFrom(cl.Call.Args[0], func(v ssa.Value) bool { return loadedField(v) == sigF })
+				}
+				p2 := c.findPath(fn, call, closesChan, isReturn)
+				c.verdict(sigF != nil && p2 == nil, rule, key+"#signal-channel-closed", c.instrPos(call), "the to-step signal channel is closed on every path from Execute to the return", "a path from the ATP execution to the return does not close the channel for signals to the step: "+strings.Join(p2, " -> "))
+			}
+		})
+	}
+	c.minCount(rule, "ATP executions", n, 1)
 }
